@@ -33,7 +33,7 @@ impl Prop for C06 {
         vec!["request_tx_rate_limit, update_rate_limmit and query_supported_interfaces end in unimplemented!() by construction and are not among the 17 implemented encoders".into()]
     }
     fn strategy(&self, _tier: Tier) -> BoxedStrategy<EncCase> {
-        gen::enc_pair(gen::addr7().boxed(), gen::req_call(false)).prop_map(|(env, call)| EncCase { env, call }).boxed()
+        gen::enc_pair(gen::dest_any().boxed(), gen::req_call(false)).prop_map(|(env, call)| EncCase { env, call }).boxed()
     }
     fn budget(&self, tier: Tier) -> u64 {
         match tier {
@@ -58,9 +58,23 @@ impl Prop for C06 {
             }
             idx += 1;
             if idx % nshards == shard {
+                // the body must not depend on the destination: a few destinations per call,
+                // including the broadcast and null EIDs
+                let mut env = env;
+                env.dest = [0x34u8, 0x00, 0x7F, 0x80, 0xFF][idx / nshards % 5];
                 f(EncCase { env, call });
             }
         });
+        // every destination byte for the parameterless and discovery requests
+        for dest in 0..=255u8 {
+            if (dest as usize) % nshards != shard {
+                continue;
+            }
+            for call in [EncCall::ReqGetEndpointId, EncCall::ReqPrepareDiscovery, EncCall::ReqEndpointDiscovery, EncCall::ReqDiscoveryNotify, EncCall::ReqGetNetworkId, EncCall::ReqQueryRateLimit, EncCall::ReqGetMsgTypes, EncCall::ReqGetEndpointUuid] {
+                let env = EncEnv { addr: 0x23, dest, eid_req: 0, eid_resp: 0, eid_via_process: false, hist: vec![] };
+                f(EncCase { env, call });
+            }
+        }
     }
     fn enumerated_desc(&self, tier: Tier) -> Option<String> {
         Some(format!("every value 0..255 of every single-byte request parameter (Set EID: 4 operations x EIDs 0x01..0xFE; vendor selector; resolve EID; routing-table handle; Query Hop EID x 6 message types; Resolve UUID handle), all 5 version queries, every routing entry count 0..7, 16 one-hot UUIDs, Allocate Endpoint IDs: {}", if tier == Tier::Thorough { "all 3 x 256 x 256 (operation, pool size, first EID) triples" } else { "3 operations x 768 (pool, first EID) pairs covering every value of each byte" }))
